@@ -155,7 +155,9 @@ def _opts(draw: Any, plain: bool = False) -> mmgen.Opts:
         nested_lists=draw(st.booleans()),
         docs=draw(st.sampled_from(["none", "plain", "plain", "adversarial"])),
         adversarial_text=draw(st.booleans()),
-        invariants=draw(st.sampled_from(["general", "general", "schema", "none"])),
+        invariants=draw(st.sampled_from(["general", "schema", "schema", "none"])),
+        compatible_patterns=0.5,
+        p_diamond=0.4,
     )
 
 
